@@ -15,7 +15,8 @@ Proved:
   order, nothing lost or duplicated, sizes `min(chunk, ncols)`), `stackGroups_nonempty`, `cumsumBlocks_spec`
   (the unstacking slices tile `[0, Σ)`);
 * TSQR block algebra over a commutative ring, two row blocks: `tsqr_two_blocks` (`Q R = A`), `tsqr_two_blocks_orthonormal`
-  (`QᵀQ = 1` if the block factors have orthonormal columns), `svd_from_qr` (`A = Q R`, `R = U S Vᵀ` ⇒ `A = (Q U) S Vᵀ`).
+  (`QᵀQ = 1` if the block factors have orthonormal columns), `svd_from_qr` (`A = Q R`, `R = U S Vᵀ` ⇒ `A = (Q U) S Vᵀ`),
+  `sfqr_two_blocks` (short-and-fat: `[A₁ A₂] = Q [R₁ QᵀA₂]`).
 Not proved: the general n-block/recursive TSQR, `sfqr`, floating-point accuracy of LAPACK factors (validated by
 residual checks), einsum index parsing (NumPy's).
 -/
@@ -230,6 +231,13 @@ theorem tsqr_two_blocks_orthonormal (Q₁ : Matrix m₁ n K) (Q₂ : Matrix m₂
 theorem svd_from_qr {m : Type} [Fintype m] (A Q : Matrix m n K) (R U S V : Matrix n n K)
     (h₁ : A = Q * R) (h₂ : R = U * S * Vᵀ) : A = (Q * U) * S * Vᵀ := by
   rw [h₁, h₂]; simp only [Matrix.mul_assoc]
+
+/-- **sfqr_two_blocks** (short-and-fat, two column blocks): `A₁ = Q R₁` with `Q` square orthogonal, `R₂ = Qᵀ A₂`
+    ⇒ `[A₁ A₂] = Q [R₁ R₂]` -/
+theorem sfqr_two_blocks {n₂ : Type} [Fintype n₂] (A₁ R₁ : Matrix n n K) (A₂ : Matrix n n₂ K) (Q : Matrix n n K)
+    (h₁ : A₁ = Q * R₁) (ho : Q * Qᵀ = 1) :
+    fromCols A₁ A₂ = Q * fromCols R₁ (Qᵀ * A₂) := by
+  rw [mul_fromCols, ← h₁, ← Matrix.mul_assoc, ho, Matrix.one_mul]
 
 end tsqr
 
